@@ -141,6 +141,12 @@ class Run:
             if 'hang-budget-exhausted' in out:
                 self.cov.branches['skipped-after-hangs'] += 1
                 continue
+            if out.startswith('harness-error:'):
+                # our own oracle / codec failed on this line: not a verdict; counted, shown, and the line is not judged
+                self.cov.branches['harness-error'] += 1
+                if self.cov.branches['harness-error'] <= 3:
+                    self.notes.append(f'harness error on `{line[:160]}`: {out[14:200]}')
+                continue
             self.cov.note(line, mod.nontrivial(line), mod.branch(line, out))
             mine = [m for (p, m) in viols if p == self.prop]
             if mine:
@@ -218,7 +224,8 @@ class Run:
         for l in out_lines:
             print(l)
         print(f"{self.prop} {self.tier}: {len(self.discharged)}/{len(self.obligations)} theorems, {self.cov.evaluations} evaluations, "
-              f"{self.disagreements} model disagreements, {len(self.violations)} failing inputs, {len(self.broken)} broken obligations, {ev['wall_s']} s")
+              f"{self.disagreements} model disagreements, {len(self.violations)} failing inputs, {len(self.broken)} broken obligations, {ev['wall_s']} s"
+              + (f" [{self.cov.branches['harness-error']} lines skipped after an error in the harness itself, see notes in the evidence file]" if self.cov.branches.get('harness-error') else ''))
         return exit_code
 
 def main(argv=None):
